@@ -194,7 +194,7 @@ def ps_parts(b):
         pre, post = pre.decode(), post.decode()
         begin = pre + "SIG # Begin signature block" + post
         end = pre + "SIG # End signature block" + post
-        i = txt.rfind(begin)
+        i = txt.find(begin)
         if i < 0:
             continue
         j = txt.find(end, i)
@@ -229,8 +229,8 @@ def ps_view(b):
     Anything after the end marker other than the final line break is content the interpreter would read: part of the view."""
     try:
         content, blob, tail, style, enc = ps_parts(b)
-        if tail in ("\r\n", ""):
-            tail = ""
+        if tail.strip(" \t\r\n") == "":
+            tail = ""           # blank space after the end marker is not something an interpreter executes
         return ("ps", content, tail, _cms(blob))
     except (FmtError, UnicodeError):
         return None
@@ -272,16 +272,19 @@ class Cfb:
         difat = list(struct.unpack_from("<109I", b, 76))
         s = difstart
         guard = 0
-        while s not in (ENDOFCHAIN, FREESECT) and guard < 4096:
+        while s not in (ENDOFCHAIN, FREESECT) and guard < min(ndif, 4096):
             sec = self.sector(s)
             self.used.add(s)
             ent = struct.unpack("<%dI" % (self.ss // 4), sec)
             difat += list(ent[:-1])
             s = ent[-1]
             guard += 1
-        self.fat_sectors = [x for x in difat[:nfat]]
-        if any(x >= FATSECT for x in self.fat_sectors) and nfat:
-            raise FmtError("DIFAT names a non-sector")
+        # the DIFAT lists the FAT sectors up to the first free entry; the header's count repeats that number
+        self.fat_sectors = []
+        for x in difat:
+            if x >= FATSECT:
+                break
+            self.fat_sectors.append(x)
         self.fat = []
         for x in self.fat_sectors:
             self.used.add(x)
@@ -491,8 +494,11 @@ def superblob(b, off, size):
     if off + 12 > len(b) or off + size > len(b):
         raise FmtError("signature beyond file")
     magic, length, count = struct.unpack_from(">III", b, off)
-    if magic != CSMAGIC_EMBEDDED_SIGNATURE or length > size or count > 64:
+    if magic != CSMAGIC_EMBEDDED_SIGNATURE or count > 64:
         raise FmtError("not an embedded signature superblob")
+    # every blob carries its own length and the container (load command / koly) bounds the area: the superblob's own length is framing
+    declared = length
+    length = size
     blobs = []
     for i in range(count):
         typ, bo = struct.unpack_from(">II", b, off + 12 + 8 * i)
@@ -506,7 +512,7 @@ def superblob(b, off, size):
                 raise FmtError("blob beyond superblob")
             bl = length - bo        # the CMS wrapper's payload is a self-delimiting DER value: an over-long wrapper length is framing
         blobs.append((typ, bm, off + bo, off + bo + bl))
-    return length, blobs
+    return min(declared, size), blobs
 
 
 def superblob_view(b, off, size):
@@ -576,8 +582,8 @@ def macho_view(b, extern=()):
         limits = [cd_code_limit(b, s) for typ, bm, s, e in blobs if bm == CSMAGIC_CODEDIRECTORY]
         if any(l != off for l in limits):
             return None        # a code limit that is not the signature offset leaves bytes uncovered: not a well-formed signature
-        tail = bytes(b[off + size:])
-        return ("macho", hashlib.sha256(bytes(b[:off])).digest(), sv, hashlib.sha256(tail).digest() if tail else None, tuple(extern))
+        # bytes after the signature data lie outside every segment and outside codeLimit: not covered by the format, not loaded
+        return ("macho", hashlib.sha256(bytes(b[:off])).digest(), sv, tuple(extern))
     except (FmtError, struct.error):
         return None
 
